@@ -13,8 +13,6 @@
                            input and an owned binding output
     AllReady own ready     every owner of an address is a ready wallet (importing/removed wallets: C07, C08)
     GoodChain / HeightsOK  block heights are positions, blocks are hash-linked
-    CbNoDeposit known      no coinbase output in the block files is a staking / binding script
-                           (Go's Rollback keeps the deposit record of a rolled-back coinbase output)
     RunHyp(I)              every node chain of the history is such a chain from one genesis, made of blocks of
                            the block files; an address receives payments only after the wallet issued it (`paid`)
 -/
@@ -137,7 +135,7 @@ theorem fresh_inv {c : Ctx} {s : Store} {G : Block} (h : FreshStore c s G) : Inv
     extensionally (credits, unspent, debits, deposit records, tx records, block records, synced-to table);
     the pending buckets legitimately change -/
 theorem rollback_connect {c : Ctx} {s s1 s2 : Store} {chain rest : List Block} {b : Block} {conf : List TxId}
-    (hcb : CbNoDeposit c.node.known) (hI : Inv c s chain) (hne : chain ≠ [])
+    (hI : Inv c s chain) (hne : chain ≠ [])
     (hnode : c.node.chain = chain ++ b :: rest) (hvalid : ChainValid c.own c.node.chain)
     (hH : HeightsOK c.node.chain) (hknown : AMap.get c.node.known b.id = some b)
     (hAR : AllReady c.own (readyWallets s c.wallets)) (hre : (readyWallets s c.wallets).isEmpty = false)
@@ -146,10 +144,10 @@ theorem rollback_connect {c : Ctx} {s s1 s2 : Store} {chain rest : List Block} {
     AMap.Equiv s2.credits s.credits ∧ AMap.Equiv s2.unspent s.unspent ∧ AMap.Equiv s2.debits s.debits ∧
     AMap.Equiv s2.game s.game ∧ AMap.Equiv s2.txrecs s.txrecs ∧ AMap.Equiv s2.blocks s.blocks ∧
     AMap.Equiv s2.sync s.sync ∧ s2.syncedTo = s.syncedTo :=
-  inv_functional (rollback_connect_inv hcb hI hne hnode hvalid hH hknown hAR hre h1 h2).2 hI
+  inv_functional (rollback_connect_inv hI hne hnode hvalid hH hknown hAR hre h1 h2).2 hI
 
 /-- disconnecting the tip block yields the invariant for the chain without it -/
-theorem disconnect_sound {c : Ctx} (h : CbNoDeposit c.node.known) : DisconnectSpec c := disconnectSpec_of h
+theorem disconnect_sound {c : Ctx} : DisconnectSpec c := disconnectSpec_of
 
 /-- rollback_build: rolling the wallet back by any number of blocks (the follower's disconnect loop; the
     fuel `curH + 1` the model passes suffices) yields the invariant for the shorter chain -/
@@ -215,10 +213,6 @@ theorem ledger_correct_issue (e : Env) (G : Block) (x0 : WorldI) (evs : List EvI
         (runI e x0 evs).w.v.best = tipMeta (runI e x0 evs).w.chain :=
   Lemmas.Ledger.ledger_correct_issue e G x0 evs H h0 hv0 hq0
 
-/-- the rollback hypothesis of `RunHyp` / `RunHypI` holds over block files without deposit coinbases -/
-theorem run_disc (e : Env) (h : CbNoDeposit e.known) :
-    ∀ own ch, DisconnectSpec ({ e with own := own }.ctx ch) := disconnectSpec_env e h
-
 /-- THE PROPERTY, observed: for every ready wallet the reported unspent outputs (tx, index, amount, height,
     maturity, confirmations, address) are – as a multiset – exactly the outputs the best chain pays to the
     wallet and has not spent, and WalletBalance (total, spendable, withdrawable staking / binding) is the
@@ -249,7 +243,7 @@ example : ObsHyp obCtx obS obChain ∧ (readyWallets obS obCtx.wallets).contains
 
 /-- a concrete history with a reorganisation satisfies `RunHyp`
     (extend b1, extend b2, handle, handle, reorganise to a sibling of b2, handle) -/
-example (hd : ∀ ch, DisconnectSpec (hxEnv.ctx ch)) : RunHyp hxEnv hxG hxW0 hxEvs := hxRunHyp hd
+example : RunHyp hxEnv hxG hxW0 hxEvs := hxRunHyp
 
 /-- the hypothesis `paid` of `ledger_correct_issue` is necessary: issuing an address AFTER a block paying it
     has been handled leaves the wallet without that payment -/
